@@ -927,6 +927,39 @@ package adaptation
 //@   loop 1 invariant forall i int :: 0 <= i && i < len(r.plugins) ==> wfPlugin(r.plugins[i]) && !r.plugins[i].closed
 //@   loop 1 invariant forall i int, j int :: 0 <= i && i < j && j < len(r.plugins) ==> r.plugins[i].idx <= r.plugins[j].idx
 
+// ---------------------------------------------------------------------------
+// Registration and configuration (plugin.go)
+// ---------------------------------------------------------------------------
+//@ pure implConfigure(p *plugin) = ncalls("api.Plugin.Configure") + ncalls("api.PluginService.Configure")
+
+//@ func plugin.configure
+//@   props C06 C17
+//@   requires p != nil && p.impl != nil && cfgLockFree() && (p.impl.wasmImpl == nil ==> p.impl.ttrpcImpl != nil)
+//@   modifies p.events, lock(global("adaptation.timeoutCfgLock")), calls("api.Plugin.Configure"), calls("api.PluginService.Configure")
+//@   ensures [once]    implConfigure(p) == old(implConfigure(p)) + 1
+//@   ensures [ttrpc]   p.impl.wasmImpl == nil ==> (let n = old(ncalls("api.PluginService.Configure")) in let rpl = callret("api.PluginService.Configure", n, 0) in let e = callret("api.PluginService.Configure", n, 1) in
+//@                       hasdeadline(callarg("api.PluginService.Configure", n, 1))
+//@                    && (e != nil ==> err != nil && p.events == old(p.events))
+//@                    && (e == nil && rpl.Events == 0 ==> err == nil && p.events == ValidEvents)
+//@                    && (e == nil && rpl.Events != 0 && (rpl.Events &^ ValidEvents) != 0 ==> err != nil && p.events == old(p.events))
+//@                    && (e == nil && rpl.Events != 0 && (rpl.Events &^ ValidEvents) == 0 ==> err == nil && p.events == rpl.Events))
+//@   ensures [wasm]    p.impl.wasmImpl != nil ==> (let n = old(ncalls("api.Plugin.Configure")) in let rpl = callret("api.Plugin.Configure", n, 0) in let e = callret("api.Plugin.Configure", n, 1) in
+//@                       hasdeadline(callarg("api.Plugin.Configure", n, 1))
+//@                    && (e != nil ==> err != nil && p.events == old(p.events))
+//@                    && (e == nil && rpl.Events == 0 ==> err == nil && p.events == ValidEvents)
+//@                    && (e == nil && rpl.Events != 0 && (rpl.Events &^ ValidEvents) != 0 ==> err != nil && p.events == old(p.events))
+//@                    && (e == nil && rpl.Events != 0 && (rpl.Events &^ ValidEvents) == 0 ==> err == nil && p.events == rpl.Events))
+
+//@ func plugin.RegisterPlugin
+//@   props C17
+//@   requires p != nil && req != nil && p.regC != nil && !chanclosed(p.regC)
+//@   modifies p.base, p.idx, calls("chan.send:chan error")
+//@   ensures [one]      ncalls("chan.send:chan error") == old(ncalls("chan.send:chan error")) + 1 && callarg("chan.send:chan error", old(ncalls("chan.send:chan error")), 0) == p.regC
+//@   ensures [noname]   p.cmd == nil && req.PluginName == "" ==> result.1 != nil && callarg("chan.send:chan error", old(ncalls("chan.send:chan error")), 1) != nil && p.base == old(p.base) && p.idx == old(p.idx)
+//@   ensures [badindex] p.cmd == nil && req.PluginName != "" && !twoDigits(req.PluginIdx) ==> result.1 != nil && callarg("chan.send:chan error", old(ncalls("chan.send:chan error")), 1) != nil && p.base == old(p.base) && p.idx == old(p.idx)
+//@   ensures [good]     p.cmd == nil && req.PluginName != "" && twoDigits(req.PluginIdx) ==> result.1 == nil && callarg("chan.send:chan error", old(ncalls("chan.send:chan error")), 1) == nil && p.base == req.PluginName && p.idx == req.PluginIdx
+//@   ensures [launched] p.cmd != nil ==> result.1 == nil && callarg("chan.send:chan error", old(ncalls("chan.send:chan error")), 1) == nil && p.base == old(p.base) && p.idx == old(p.idx)
+
 // ---- lifecycle event wrappers: set the event kind, then dispatch (generated by gen_dispatch.py) ----
 //@ func Adaptation.RunPodSandbox
 //@   props C06
